@@ -63,6 +63,7 @@ enum Tpl {
     T_QCYCLE,           // garbage cycle whose nodes own an object with a qubit and an echoing destructor (known finding D19) - only when enabled
     T_E_GENERIC_STATIC, // generic class whose static initialiser instantiates the same specialisation
     T_DERIVED_LEAF,     // derived class that adds no reference field: its object owns another only through an inherited field
+    T_E_DECL_ORDER,     // classes declared most-derived first (defect D22)
     T_E_RECURSE,        // bounded recursion holding an object (with destructor) per frame, optionally failing at the bottom
     T_COUNT
 };
@@ -72,7 +73,7 @@ inline const char* tplName(int t) {
                               "static_assign", "loop_alloc", "destroy", "cycle_drop", "virtual", "box", "ret_while_dtor", "churn", "churn_d",
                               "self_cycle_live", "show_all", "static_cycle", "drop_var", "keep_chain", "diamond_generic", "method_churn",
                               "e_div0", "e_mod0", "e_longmin_mod", "e_index", "e_null_field", "e_null_call", "e_deep", "e_voverload", "e_ctor_err",
-                              "e_fieldinit_err", "e_int_extreme", "e_literal_range", "e_cast", "e_neg_array", "e_destroy_twice", "e_super_call", "e_dtor_err", "qubit_owner_in_garbage_cycle", "e_generic_static", "derived_without_own_reference_fields", "e_recurse"};
+                              "e_fieldinit_err", "e_int_extreme", "e_literal_range", "e_cast", "e_neg_array", "e_destroy_twice", "e_super_call", "e_dtor_err", "qubit_owner_in_garbage_cycle", "e_generic_static", "derived_without_own_reference_fields", "e_declared_before_base", "e_recurse"};
     return (t >= 0 && t < T_COUNT) ? n[t] : "?";
 }
 
@@ -210,6 +211,10 @@ inline std::string preamble(const Plan& p) {
             "    public function viaShared() -> int { return shared.touch(); }\n"
             "}\n"
             "function rec(int n, int bad) -> int { D keep = new D(n % 3); if (n <= 0) { if (bad == 1) { return F.boom(5); } return 0; } int r = 1 + rec(n - 1, bad); return r + keep.k - keep.k; }\n"
+            // declared most-derived first: layouts and dispatch tables must not depend on the order of declaration
+            "class Ord3 extends Ord2 { public string s3 = \"c\"; public constructor() -> Ord3 { super(); return this; } public override function who() -> int { return 30 + super.who(); } }\n"
+            "class Ord2 extends Ord1 { public N held = F.mk(77); public constructor() -> Ord2 { super(); return this; } public virtual override function who() -> int { return 20 + this.x; } }\n"
+            "class Ord1 { public int x = 1; public int z = 3; public constructor() -> Ord1 { return this; } public virtual function who() -> int { return this.x; } public function g() -> int { return this.x + this.z; } }\n"
             "class BadInit {\n"
             "    public N held = F.mk(56);\n"
             "    public int q = F.boom(3);\n"
@@ -309,6 +314,11 @@ inline std::string renderStmt(const Plan& p, const Stmt& st, int index) {
             return "    " + cls + " bdt" + I(index) + " = new " + cls + "();\n" + rel + "    echo(\"after dtor err\");\n    echo(\"still running\");\n";
         }
         case T_DERIVED_LEAF: return "    " + x + " = new L(" + I(id) + ");\n    echo(F.churn(" + I(k) + "));\n    echo(F.show(" + x + "));\n";
+        case T_E_DECL_ORDER: {
+            std::string v = "od" + I(index);
+            std::string cls = st.a % 3 == 0 ? "Ord3" : st.a % 3 == 1 ? "Ord2" : "Ord1";
+            return "    Ord1 " + v + " = new " + cls + "();\n    echo(" + v + ".g());\n    echo(" + v + ".who());\n";
+        }
         case T_E_RECURSE: return "    echo(rec(" + I(3 + (st.a % 12) * 4) + ", " + I(st.b % 3 == 0 ? 1 : 0) + "));\n";
         case T_E_GENERIC_STATIC: {
             std::string ty = st.a % 2 ? "string" : "int";
@@ -361,7 +371,7 @@ inline Plan generate(sim::Rng& g, bool edge, bool allowDtorErr, bool allowQcycle
                                  T_LOOP_ALLOC, T_DESTROY, T_CYCLE_DROP, T_VIRTUAL, T_BOX, T_RET_WHILE_DTOR, T_CHURN, T_CHURN_D, T_SELF_CYCLE_LIVE, T_SHOW_ALL,
                                  T_STATIC_CYCLE, T_DROP_VAR, T_KEEP_CHAIN, T_DIAMOND_GENERIC, T_METHOD_CHURN, T_DERIVED_LEAF};
     static const int edgeTpls[] = {T_E_DIV0, T_E_MOD0, T_E_LONGMIN_MOD, T_E_INDEX, T_E_NULL_FIELD, T_E_NULL_CALL, T_E_DEEP, T_E_VOVERLOAD, T_E_CTOR_ERR, T_E_FIELDINIT_ERR,
-                                   T_E_INT_EXTREME, T_E_LITERAL_RANGE, T_E_CAST, T_E_NEG_ARRAY, T_E_DESTROY_TWICE, T_E_SUPER_CALL, T_E_GENERIC_STATIC, T_E_RECURSE};
+                                   T_E_INT_EXTREME, T_E_LITERAL_RANGE, T_E_CAST, T_E_NEG_ARRAY, T_E_DESTROY_TWICE, T_E_SUPER_CALL, T_E_GENERIC_STATIC, T_E_RECURSE, T_E_DECL_ORDER};
     double edgeShare = edge ? 0.35 : 0.0;
     for (int i = 0; i < n; ++i) {
         Stmt st;
